@@ -139,6 +139,18 @@ MUTANTS = [
     ("c17_rebalance_fi_ignores_base", ["C17"], "bt/core.py", "            if c.fixed_income:\n                delta = weight * base - c.weight * self.notional_value\n                c.transact(delta, update=update)", "            if c.fixed_income:\n                delta = weight * self.notional_value - c.weight * self.notional_value if self.notional_value else weight * base\n                c.transact(delta, update=update)"),
     ("c17_renorm_ignores_flows", ["C17"], "bt/backtest.py", "        returns = s.values.diff() - s.flows", "        returns = s.values.diff()"),
     ("c17_fisec_flag_dropped", ["C17"], "bt/core.py", "        self._fixed_income = True\n\n    @cy.locals(coupon=cy.double)", "        self._fixed_income = False\n\n    @cy.locals(coupon=cy.double)"),
+    # ---- C20
+    ("c20_risk_without_multiplier", ["C20"], "bt/algos.py", "                risk = unit_risk * target.position * target.multiplier", "                risk = unit_risk * target.position"),
+    ("c20_risk_flat_not_zero", ["C20"], "bt/algos.py", "            if is_zero(target.position):\n                risk = 0.0\n            else:", "            if False:\n                risk = 0.0\n            else:"),
+    ("c20_strategy_risk_skips_substrategies", ["C20"], "bt/algos.py", "                self._set_risk_recursive(child, depth + 1, unit_risk_frame)\n                risk += child.risk[self.measure]", "                self._set_risk_recursive(child, depth + 1, unit_risk_frame)\n                if isinstance(child, bt.core.SecurityBase):\n                    risk += child.risk[self.measure]"),
+    ("c20_unit_risk_previous_row", ["C20", "C04"], "bt/algos.py", "        unit_risk = unit_risks.values[index]\n", "        unit_risk = unit_risks.values[max(index - 1, 0)]\n"),
+    ("c20_hedge_no_multiplier", ["C20"], "bt/algos.py", "_get_unit_risk(s, d, i) * multiplier(s) for (i, d) in data]", "_get_unit_risk(s, d, i) for (i, d) in data]"),
+    ("c20_hedge_sign", ["C20"], "bt/algos.py", "        notionals = np.matmul(inv, -target_risk).flatten()", "        notionals = np.matmul(inv, target_risk).flatten()"),
+    ("c20_close_strictly_after", ["C20"], "bt/algos.py", "        is_closed = close_dates.loc[sec_names] <= target.now", "        is_closed = close_dates.loc[sec_names] < target.now"),
+    ("c20_close_not_remembered", ["C20"], "bt/algos.py", "            target.close(sec_name, update=False)\n            target.perm[\"closed\"].add(sec_name)", "            target.close(sec_name, update=False)"),
+    ("c20_roll_ignores_factor", ["C20"], "bt/algos.py", "                new_quantity = sec_fields[\"factor\"] * target[sec_name].position", "                new_quantity = target[sec_name].position"),
+    ("c20_roll_repeats", ["C20"], "bt/algos.py", "            if sec_fields[\"date\"] <= target.now:\n                target.perm[\"rolled\"].add(sec_name)", "            if sec_fields[\"date\"] <= target.now:\n                pass"),
+    ("c20_roll_keeps_source", ["C20"], "bt/algos.py", "                    transactions[new_sec] = new_quantity\n                target.close(sec_name, update=False)", "                    transactions[new_sec] = new_quantity"),
     # ---- C08
     ("c08_fee_reset_every_update", ["C08", "C07"], "bt/core.py", "        # update now\n        self.now = date\n        if inow is None:\n            if self.now == 0:\n                inow = 0\n            else:\n                inow = self.data.index.get_loc(date)\n\n        # update children if any and calculate value", "        # update now\n        self.now = date\n        self._last_fee = 0.0\n        if inow is None:\n            if self.now == 0:\n                inow = 0\n            else:\n                inow = self.data.index.get_loc(date)\n\n        # update children if any and calculate value"),
     ("c08_outlay_row_accumulates", ["C08", "C07"], "bt/core.py", "            self._outlays.array[inow] += self._outlay\n            # reset outlay back to 0\n            self._outlay = 0\n", "            self._outlays.array[inow] += self._outlay\n"),
